@@ -245,16 +245,19 @@ inductive Wait where
   | err (e : LoadErr)
 deriving Repr, DecidableEq
 
+/-- `rl.verifier == nil || rl.verifier.Done()` -/
+def State.verifierDone (s : State) : Bool :=
+  match s.ver with
+  | none => true
+  | some v => verDone s.record v
+
 /-- waitRemote; one iteration per unit of fuel (the loop consumes one queue item per iteration) -/
 def waitRemote : Nat → State → State × Wait
   | 0, s => (s, .blocked)      -- not reached: fuel = queue length + 1
   | fuel + 1, s =>
     match s.rq.q with
     | head :: _ =>
-      let vdone := match s.ver with
-        | none => true
-        | some v => verDone s.record v
-      if vdone then ({ s with ver := none }, .remote)
+      if s.verifierDone then ({ s with ver := none }, .remote)
       else
         let v := (s.ver.getD none)
         let path := verPath s.record v
